@@ -179,6 +179,23 @@ theorem reportedName_info {pre n : Path} (hpc : clean pre = pre) (hsep : '/' ∈
   rw [hb, hasPrefix_name_false hok hsep]
   simp
 
+/-! ### `reportedInfoName` (since the repair of D26 `newPrefixFileInfo` overrides the root's name only) -/
+
+theorem reportedInfoName_root {pre n : Path} (hpc : clean pre = pre) (hn : (cleanC n).comps = [])
+    (baseName : Path) : reportedInfoName pre (join pre (clean n)) baseName = rootP := by
+  rw [prefixed_root hpc hn]
+  unfold reportedInfoName
+  simp only [if_true]
+
+/-- every prefix, relative ones included: the info of every entry but the root keeps the name the base
+object reports -/
+theorem reportedInfoName_info {pre n : Path} (hpc : clean pre = pre) (hs : StaysInside n)
+    (hn : (cleanC n).comps ≠ []) (baseName : Path) :
+    reportedInfoName pre (join pre (clean n)) baseName = baseName := by
+  have hne := prefixed_ne hpc hs hn
+  unfold reportedInfoName
+  rw [if_neg hne]
+
 /-! ### the rooted name again: `Base`, re-entering it, mentioning -/
 
 theorem base_rootedName {n : Path} (hs : StaysInside n) (hn : (cleanC n).comps ≠ []) :
